@@ -175,6 +175,11 @@ class Runner(object):
             self.disagree(step, 'interpretable behaviour', list(w.problems))
             w.problems = []
             return False
+        if not self.compare and self.agree and step[0] == 'pollSelect':
+            # a prefix step replayed without comparison (exhaustive stream): the choice among equal
+            # execute_at still has to be the model's, as it was when this step was the compared one,
+            # or every later state differs by that unspecified order only
+            self._ties(step[1], self.model_state())
         if self.compare and self.agree:
             m = self.model_state()
             self.model = m
